@@ -122,15 +122,19 @@ def check_string(s, sepopt):
                            ('head', 'headmarker'), ('cat', 'label')):
             if not clean or not ref[comp]:
                 continue
-            flags = {}
-            lab2 = T.parse_label(s, **kw)
-            setattr(lab2, attr, '')
-            f = T.format_label(lab2, **flags)
-            expf = ref_format(ref, sep, drop=comp)
-            if f != expf:
-                bad('empty-component', 'format_label',
-                    'emptying %s of %r and formatting gives %r, expected %r' % (comp, s, f, expf),
-                    'emptying the %s component does not remove exactly that component' % comp)
+            for flags in ({}, {'always_label': True}, {'always_gf': True}):
+                # an emptied component stays away whatever is asked for the defaults; a missing gf is written
+                # as the default only when always_gf asks for it
+                if 'always_gf' in flags and (comp != 'gf' and not ref['gf']):
+                    continue
+                lab2 = T.parse_label(s, **kw)
+                setattr(lab2, attr, '')
+                f = T.format_label(lab2, **flags)
+                expf = ref_format(ref, sep, drop=comp)
+                if f != expf:
+                    bad('empty-component', 'format_label',
+                        'emptying %s of %r and formatting with %r gives %r, expected %r' % (comp, s, sorted(flags), f, expf),
+                        'emptying the %s component does not remove exactly that component' % comp)
     except Exception as e:
         bad('exception', 'parse_label/format_label', '%s: %s on %r' % (type(e).__name__, e, s),
             'label function raised')
